@@ -286,8 +286,13 @@ class Fn:
             chk.assume(a)
         open_ = [o for o in col.obs if o['result'] in (report.UNDECIDED, report.VIOLATED) and not o['reproduced']]
         refuted = {}
-        if open_ and self.bounded_sizes:
-            refuted = self.model_queries()
+        if self.bounded_sizes and (open_ or self.tier == 'thorough'):
+            # thorough tier: the model queries always run -- the same engine at concrete sizes must agree with the
+            # specification for ALL values (engine cross-check, DESIGN 2.8); recorded as a bounded stand-in
+            refuted = self.model_queries(stop_early=bool(open_))
+            if not open_:
+                chk.bounded_standin((self.rename or (lambda x: x))('VizierC11.engine_at_concrete_sizes'), 'sizes %s, all values (quantifier-free queries)' % (list(self.bounded_sizes),),
+                                    'agrees with the specification' if not refuted else 'DISAGREES: %s' % sorted(refuted))
         for o in col.obs:
             n = o['name']
             if n in refuted:
@@ -311,7 +316,7 @@ class Fn:
                            model=r['model'], replay=r['replay'], reproduced=r['reproduced'])
         return col
 
-    def model_queries(self):
+    def model_queries(self, stop_early=True):
         """same engine, same real AST, concrete small sizes: quantifier-free => definite sat/unsat."""
         refuted = {}
         for sz in self.bounded_sizes:
@@ -322,7 +327,7 @@ class Fn:
             for o in col.obs:
                 if o['result'] == report.VIOLATED and o['name'] not in refuted:
                     refuted[o['name']] = dict(sizes=sz, model=o['model'], replay=o['replay'], reproduced=o['reproduced'], time_s=o['time_s'])
-            if refuted and all(r['reproduced'] for r in refuted.values()):
+            if stop_early and refuted and all(r['reproduced'] for r in refuted.values()):
                 break
         return refuted
 
@@ -603,32 +608,49 @@ acc = pm.accessor
 
 
 def lot_roles():
-    """names of the list locals of the current ListOptimalTrials, found by role in the AST (robust to renaming):
-    considered: appended the loop-1 target; vectors: appended a list built in the loop-1 body; optimal: appended in loop 3."""
+    """The lists and loops of the current ListOptimalTrials, found by ROLE in the AST (robust to renaming, to helper
+    extraction and to the way the final selection is written):
+      loop1      the top-level `for` whose body appends its own loop target to a list          -> `considered`
+      vectors    the other list appended to in that loop (a vector built in place or by a helper)
+      loop3      a later top-level `for` that appends to a list (the selection by the optimal mask) -> `optimal`;
+                 absent when the selection is a comprehension / numpy mask indexing (handled as a definitional filter)."""
     cls = ModuleInfo.get(SVC).classes['VizierServicer']
     fn = cls.methods['ListOptimalTrials']
     loops = sorted([n for n in _ast.walk(fn) if isinstance(n, (_ast.For, _ast.While))], key=lambda n: (n.lineno, n.col_offset))
-    roles = {}
-    outer = [l for l in loops if not any(l is not o and l in list(_ast.walk(o)) for o in loops)]
-    if len(outer) < 2:
-        raise Unsupported('ListOptimalTrials: expected two top-level loops, found %d' % len(outer))
-    first, last = outer[0], outer[-1]
-    roles['loop1'], roles['loop3'] = loops.index(first) + 1, loops.index(last) + 1
-    tgt = first.target.id if isinstance(first.target, _ast.Name) else None
-    for n in _ast.walk(first):
-        if isinstance(n, _ast.Call) and isinstance(n.func, _ast.Attribute) and n.func.attr == 'append' and isinstance(n.func.value, _ast.Name) \
-                and len(n.args) == 1 and isinstance(n.args[0], _ast.Name):
-            if n.args[0].id == tgt:
-                roles['considered'] = n.func.value.id
-            elif any(isinstance(a, _ast.Assign) and isinstance(a.value, _ast.List) and any(isinstance(t, _ast.Name) and t.id == n.args[0].id for t in a.targets)
-                     for a in _ast.walk(first)):
-                roles['vectors'] = n.func.value.id
-    for n in _ast.walk(last):
-        if isinstance(n, _ast.Call) and isinstance(n.func, _ast.Attribute) and n.func.attr == 'append' and isinstance(n.func.value, _ast.Name):
-            roles['optimal'] = n.func.value.id
-    missing = [k for k in ('considered', 'vectors', 'optimal') if k not in roles]
-    if missing:
-        raise Unsupported('ListOptimalTrials: cannot identify the list(s) %s by role' % missing)
+    top = [l for l in loops if not any(l is not o and any(l is x for x in _ast.walk(o)) for o in loops)]
+
+    def appends(loop):
+        out = []
+        for n in _ast.walk(loop):
+            if isinstance(n, _ast.Call) and isinstance(n.func, _ast.Attribute) and n.func.attr == 'append' and isinstance(n.func.value, _ast.Name) \
+                    and len(n.args) == 1:
+                out.append((n.func.value.id, n.args[0]))
+        return out
+    roles = {'loop3': None}
+    first = None
+    for l in top:
+        tgt = l.target.id if isinstance(l, _ast.For) and isinstance(l.target, _ast.Name) else None
+        aps = appends(l)
+        own = [x for x, a in aps if isinstance(a, _ast.Name) and a.id == tgt]
+        if tgt is not None and own:
+            first = l
+            roles['loop1'] = loops.index(l) + 1
+            roles['considered'] = own[0]
+            # a list of vectors: appended to in the same loop, but not itself appended anywhere (the in-place vector is)
+            appended_values = {a.id for _, a in aps if isinstance(a, _ast.Name)}
+            others = [x for x, a in aps if x != own[0] and x not in appended_values]
+            if len(set(others)) != 1:
+                raise Unsupported('ListOptimalTrials: cannot identify the list of objective vectors by role (candidates: %s)' % sorted(set(others)))
+            roles['vectors'] = others[0]
+            break
+    if first is None:
+        raise Unsupported('ListOptimalTrials: no top-level loop that collects its own loop target into a list')
+    for l in top[top.index(first) + 1:]:
+        aps = appends(l)
+        if isinstance(l, _ast.For) and aps:
+            roles['loop3'] = loops.index(l) + 1
+            roles['optimal'] = aps[0][0]
+            break
     return roles
 
 
@@ -830,13 +852,20 @@ def _inv_lot1(it, fr, ctx):
     return inv
 
 
+def _bool_of(item):
+    """the boolean of one element of the selection loop's iterator: enumerate(list(mask)) -> (i, b); zip(xs, mask) -> (x, b)"""
+    items = item if isinstance(item, tuple) else (item,)
+    bs = [x for x in items if z3.is_expr(x) and x.sort() == z3.BoolSort()]
+    if len(bs) != 1:
+        raise Unsupported('ListOptimalTrials selection loop: cannot identify the optimality flag among the loop targets')
+    return bs[0]
+
+
 def _inv_lot3(it, fr, ctx):
     run = it.run
     g, roles = run.c11, run.c11['roles']
     en, i = ctx.iter, ctx.i
-    ob = getattr(en, 'base', None)
-    if ob is None:
-        raise Unsupported('ListOptimalTrials loop 3: not an enumerate() over a list of booleans')
+    ob = lambda y: _bool_of(en.get(y))
     C = fr.env[roles['considered']]
     no, oarr = _lst(fr.env[roles['optimal']], 'optimal')
     src = run.ghost['c11.src3']
@@ -844,7 +873,7 @@ def _inv_lot3(it, fr, ctx):
         return [('sizes', no == 0)]
     if ctx.phase == 'head':
         run.c11_clock = i
-        g.update(O=M.snapshot(fr.env[roles['optimal']]), src3=src, OB=ob, C3=M.snapshot(C))
+        g.update(O=M.snapshot(fr.env[roles['optimal']]), src3=(lambda j, src=src: src[j]), OBf=ob, C3=M.snapshot(C))
     inv = [('sizes', z3.And(no >= 0, no <= i))]
     if ctx.phase == 'preserve':
         jj, x, j2 = run.fresh('jj', z3.IntSort()), run.fresh('xx', z3.IntSort()), run.fresh('jj2', z3.IntSort())
@@ -855,21 +884,22 @@ def _inv_lot3(it, fr, ctx):
         all_j = lambda body: QA(no, body)
         all_x = lambda body: QA(i, body)
         mono = QA2(no, lambda a, b: src[a] < src[b])
-    inv.append(('provenance', all_j(lambda j: z3.And(src[j] >= 0, src[j] < i, oarr[j] == C.arr[src[j]], ob.arr[src[j]]))))
+    inv.append(('provenance', all_j(lambda j: z3.And(src[j] >= 0, src[j] < i, oarr[j] == C.arr[src[j]], ob(src[j])))))
     inv.append(('order', mono))
     if ctx.phase == 'preserve':
         nh = g['O'].n
-        inv.append(('complete', all_x(lambda y: z3.Implies(ob.arr[y], z3.Or(z3.And(no == nh + 1, src[nh] == y),
-                                                                           QE(nh, lambda j: z3.And(j < no, src[j] == y)))))))
+        inv.append(('complete', all_x(lambda y: z3.Implies(ob(y), z3.Or(z3.And(no == nh + 1, src[nh] == y),
+                                                                       QE(nh, lambda j: z3.And(j < no, src[j] == y)))))))
     else:
-        inv.append(('complete', all_x(lambda y: z3.Implies(ob.arr[y], QE(no, lambda j: src[j] == y)))))
+        inv.append(('complete', all_x(lambda y: z3.Implies(ob(y), QE(no, lambda j: src[j] == y)))))
     return inv
 
 
 def lot_register():
     roles = lot_roles()
     E.LOOPS[(SVC, LOT, roles['loop1'])] = E.LoopSpec(_inv_lot1, ghost=('c11.src1',))
-    E.LOOPS[(SVC, LOT, roles['loop3'])] = E.LoopSpec(_inv_lot3, ghost=('c11.src3',))
+    if roles['loop3'] is not None:
+        E.LOOPS[(SVC, LOT, roles['loop3'])] = E.LoopSpec(_inv_lot3, ghost=('c11.src3',))
 
     def mk_trials(prov):
         def mk(it, v):
@@ -885,7 +915,8 @@ def lot_register():
             raise Unsupported('ListOptimalTrials: list is not empty at loop entry')
         return NDArray((0, len(it.run.c11['metrics'])), 'float', lambda j, k: xreal.lit(0.0), kind='list')
     NP.declare_list(SVC, LOT, roles['considered'], mk_trials('c11.src1'))
-    NP.declare_list(SVC, LOT, roles['optimal'], mk_trials('c11.src3'))
+    if roles['loop3'] is not None:
+        NP.declare_list(SVC, LOT, roles['optimal'], mk_trials('c11.src3'))
     NP.declare_list(SVC, LOT, roles['vectors'], mk_vectors)
     return roles
 
@@ -992,29 +1023,34 @@ def lot_post(d):
             return obs
         j0, i0, j1 = z3.Int('j0!p'), z3.Int('i0!p'), z3.Int('j1!p')
         in_r = z3.And(j0 >= 0, j0 < nr)
-        if 'src3' not in g:
+        sel3 = selection_of(run, g, R)
+        if sel3 is None:
             # early return: nothing is reported, so nothing may satisfy the specification
             obs.append((pre + '.iff', z3.And(nr == 0, z3.Implies(z3.And(i0 >= 0, i0 < n), z3.Not(spec_reported(g, raw, i0))))))
             obs.append((pre + '.order', nr == 0))
             obs.append((pre + '.considered', nr == 0))
             obs.append((pre + '.no_nan_objective', nr == 0))
             return obs
-        C, V, OB, src1, src3 = g['C'], g['V'], g['OB'], g['src1'], g['src3']
+        C, V, src1 = g['C'], g['V'], g['src1']
+        s3, OBf, complete_at = sel3
         nc = C.n
+        if complete_at is not None and not g.get('filter_instance_added'):
+            g['filter_instance_added'] = True
+            NP.fact(run, complete_at(z3.Int('c1!p')))
         if not g.get('deferred_added'):
             g['deferred_added'] = True
             for f in getattr(run, 'np_deferred', []):      # list(optimal_booleans)[j] == optimal_booleans[j]
                 NP.fact(run, f)
-        w = lambda j: src1[src3[j]]
+        w = lambda j: src1[s3(j)]
         # lemmas (cut rule: each proved from the loop-exit invariants, then available to the clauses below)
         obs.append((pre + '.lemma.numpy_block_is_dominance',
-                    QA(nc, lambda c: OB.arr[c] == z3.Not(QE(nc, lambda j2: dom_trials(g, C.arr[j2], C.arr[c])))), 'lemma'))
+                    QA(nc, lambda c: OBf(c) == z3.Not(QE(nc, lambda j2: dom_trials(g, C.arr[j2], C.arr[c])))), 'lemma'))
         obs.append((pre + '.lemma.considered_complete',
                     QA(n, lambda x: z3.Implies(cons(g, raw.arr[x]), QE(nc, lambda j: z3.And(C.arr[j] == raw.arr[x], src1[j] == x)))), 'lemma'))
         obs.append((pre + '.lemma.considered_sound',
                     QA(nc, lambda c: z3.And(src1[c] >= 0, src1[c] < n, C.arr[c] == raw.arr[src1[c]], cons(g, C.arr[c]))), 'lemma'))
         obs.append((pre + '.lemma.response_is_filtered',
-                    z3.Implies(in_r, z3.And(src3[j0] >= 0, src3[j0] < nc, ra[j0] == C.arr[src3[j0]], OB.arr[src3[j0]])), 'lemma'))
+                    z3.Implies(in_r, z3.And(s3(j0) >= 0, s3(j0) < nc, ra[j0] == C.arr[s3(j0)], OBf(s3(j0)))), 'lemma'))
         obs.append((pre + '.considered', z3.Implies(in_r, cons(g, ra[j0]))))
         obs.append((pre + '.iff.reported_meets_spec', z3.Implies(in_r, z3.And(w(j0) >= 0, w(j0) < n, ra[j0] == raw.arr[w(j0)], spec_reported(g, raw, w(j0))))))
         # proof script for "every trial meeting the specification is reported" (each step is an obligation; DESIGN 2.3):
@@ -1023,8 +1059,8 @@ def lot_post(d):
         hyp0 = z3.And(i0 >= 0, i0 < n, cons(g, raw.arr[i0]))
         K = lambda c: z3.And(c >= 0, c < nc, src1[c] == i0, C.arr[c] == raw.arr[i0])
         obs.append((pre + '.iff.spec_is_reported.obtain_considered_index', z3.Implies(hyp0, QE(nc, K)), 'lemma'))
-        obs.append((pre + '.iff.spec_is_reported.use_numpy_block', z3.Implies(K(c1), OB.arr[c1] == z3.Not(QE(nc, lambda j2: dom_trials(g, C.arr[j2], C.arr[c1])))), 'lemma'))
-        obs.append((pre + '.iff.spec_is_reported.use_filter_complete', z3.Implies(z3.And(K(c1), OB.arr[c1]), QE(nr, lambda j: src3[j] == c1)), 'lemma'))
+        obs.append((pre + '.iff.spec_is_reported.use_numpy_block', z3.Implies(K(c1), OBf(c1) == z3.Not(QE(nc, lambda j2: dom_trials(g, C.arr[j2], C.arr[c1])))), 'lemma'))
+        obs.append((pre + '.iff.spec_is_reported.use_filter_complete', z3.Implies(z3.And(K(c1), OBf(c1)), QE(nr, lambda j: s3(j) == c1)), 'lemma'))
         obs.append((pre + '.iff.spec_is_reported', z3.Implies(z3.And(hyp0, spec_reported(g, raw, i0), K(c1)), QE(nr, lambda j: w(j) == i0))))
         obs.append((pre + '.order', z3.Implies(z3.And(j0 >= 0, j0 < j1, j1 < nr), w(j0) < w(j1))))
         obs.append((pre + '.no_nan_objective', z3.Implies(in_r, nan_free(ra[j0]))))
@@ -1032,6 +1068,23 @@ def lot_post(d):
             expect_open(obs[-1][1])
         return obs
     return post
+
+
+def selection_of(run, g, R):
+    """(src3, flag): response[j] is considered[src3(j)] and flag(c) is the optimality flag of considered[c] -- from the selection
+    loop's ghost provenance, or from the definitional encoding of a filtering comprehension / boolean-mask indexing."""
+    if 'src3' in g:
+        return g['src3'], g['OBf'], None
+    for f in reversed(getattr(run, 'filters', [])):
+        if f.arr.eq(R.arr):
+            # third component: the completeness axiom of the definitional encoding instantiated at a given index (an
+            # instance of a fact that is already among the hypotheses; it has no trigger when the flag is constant)
+            inst = lambda c, f=f: z3.Implies(z3.And(c >= 0, c < f.parent.n, f.cond_at(c)), QE(f.n, lambda j: f.src[j] == c))
+            return (lambda j, f=f: f.src[j]), f.cond_at, inst
+    for f in reversed(getattr(run, 'np_filters', [])):
+        if f['arr'].eq(R.arr):
+            return f['src'], f['cond'], f['complete_at']
+    return None
 
 
 def lot_known(d):
@@ -1631,12 +1684,25 @@ def xla_simple_post(fn, pre):
     return post
 
 
+def replay_is_dominated(name, path, model, sz):
+    """_is_dominated(y1, y2, strict) is replayed through the real _is_pareto_optimal_against on the two single rows"""
+    g = path.run.c11
+    n, m, d = conc(g['n']), conc(g['m']), conc(g['d'])
+    if None in (n, m, d):
+        return None
+    i = model.eval(g['i'], model_completion=True).as_long()
+    a = model.eval(g['a'], model_completion=True).as_long()
+    row = lambda X, r: [xreal.model_value(model, X.at(r, k)) for k in range(d)]
+    return {'mode': 'xla', 'fn': '_is_pareto_optimal_against', 'obligation': name, 'points': jsonable([row(g['P'], i)]),
+            'against': jsonable([row(g['A'], a)]), 'strict': bool(g['strict'])}
+
+
 def check_xla_simple(chk, tier):
     for strict in (True, False):
         sfx = 'strict' if strict else 'nonstrict'
         pre = 'C11.xla._is_dominated.' + sfx
         Fn(chk, tier, '_is_dominated', xla_simple_entry('_is_dominated', strict), xla_simple_post('_is_dominated', pre),
-           bounded_sizes=[], rename=support_rename(pre), workers=1).run()
+           replay_of=replay_is_dominated, bounded_sizes=[(1, 1, 1), (1, 1, 2)], rename=support_rename(pre), workers=1).run()
         pre = 'C11.xla._is_pareto_optimal_against.' + sfx
         Fn(chk, tier, '_is_pareto_optimal_against', xla_simple_entry('_is_pareto_optimal_against', strict),
            xla_simple_post('_is_pareto_optimal_against', pre), replay_of=replay_points('xla', {'fn': '_is_pareto_optimal_against'}),
